@@ -10,7 +10,16 @@ use subprocess::{ExitStatus, Popen, PopenConfig, Redirection};
 use subprocess::unix::PopenExt;
 
 fn marker() { unsafe { libc::kill(libc::getpid(), 0); } }
+static GROUP_CHILD: std::sync::atomic::AtomicI32 = std::sync::atomic::AtomicI32::new(0);
 fn inner() {
+    // watchdog: if a step blocks (a child that never reports a signal it was not sent), end this whole traced process group -- the
+    // tracer, this program and its children -- instead of leaving them behind; the outer program reports the failed run
+    std::thread::spawn(|| {
+        std::thread::sleep(Duration::from_secs(45));
+        println!("INNER-TIMEOUT");
+        let g = GROUP_CHILD.load(std::sync::atomic::Ordering::SeqCst);
+        unsafe { if g > 0 { libc::kill(-g, libc::SIGKILL); } libc::kill(0, libc::SIGKILL); }
+    });
     // phase 1
     let mut p = Popen::create(&["sh", "-c", "trap 'echo TERM' TERM; trap 'echo USR1' USR1; trap 'echo HUP' HUP; trap 'echo INT' INT; echo ready; while :; do sleep 0.05; done"], PopenConfig { stdout: Redirection::Pipe, ..Default::default() }).unwrap();
     let pid = p.pid().unwrap();
@@ -35,6 +44,7 @@ fn inner() {
                                   PopenConfig { stdout: Redirection::Pipe, setpgid: true, ..Default::default() }).unwrap();
         println!("GROUPCHILD {}", g.pid().unwrap());
         let gpid = g.pid().unwrap();
+        GROUP_CHILD.store(gpid as i32, std::sync::atomic::Ordering::SeqCst);
         let mut rd = BufReader::new(g.stdout.take().unwrap());
         let mut l = String::new();
         rd.read_line(&mut l).unwrap();
@@ -67,7 +77,12 @@ fn main() {
     if std::env::args().nth(1).as_deref() == Some("--inner") { inner(); return; }
     let trace = std::env::temp_dir().join(format!("verif-c10-{}.trace", std::process::id()));
     let me = std::env::current_exe().unwrap();
-    let o = std::process::Command::new("strace").args(&["-f", "-e", "trace=kill,tgkill,tkill", "-o"]).arg(&trace).arg(&me).arg("--inner").output().expect("strace is needed for this scenario");
+    use std::os::unix::process::CommandExt;
+    let mut cmd = std::process::Command::new("strace");
+    cmd.args(&["-f", "-e", "trace=kill,tgkill,tkill", "-o"]).arg(&trace).arg(&me).arg("--inner");
+    // the traced run gets a process group of its own, so that its watchdog can end all of it
+    unsafe { cmd.pre_exec(|| { libc::setpgid(0, 0); Ok(()) }); }
+    let o = cmd.output().expect("strace is needed for this scenario");
     let out = String::from_utf8_lossy(&o.stdout).to_string();
     let tr = std::fs::read_to_string(&trace).unwrap_or_default();
     let _ = std::fs::remove_file(&trace);
@@ -97,7 +112,7 @@ fn main() {
         let to_g: Vec<&&&str> = phase1.iter().filter(|l| l.contains(&format!("kill({},", gchild))).collect();
         if to_g.len() != 2 || !to_g[0].contains("SIGTERM") || !to_g[1].contains("SIGKILL") { fail(format!("signals sent to the child that leads its own process group: {:?}; expected exactly SIGTERM and SIGKILL to pid {}", to_g, gchild)); }
         if !out.contains("GROUPSTATUS Signaled(9)") { fail("kill() did not end the group-leading child with SIGKILL".into()); }
-        let cleanup = format!("kill(-{}, SIGKILL)", gchild);
+        let cleanup = format!("kill(-{}, SIGKILL", gchild);     // (no closing parenthesis: strace may print the call in two halves)
         let stray: Vec<&&&str> = phase1.iter().filter(|l| !l.contains(&format!("kill({},", children[0])) && !l.contains(&format!("kill({},", gchild)) && !l.contains(&cleanup)).collect();
         if !stray.is_empty() { fail(format!("signals sent to something other than the child: {:?}", stray)); }
         // phase 2: nothing
